@@ -1,6 +1,6 @@
 (* C15 -- nested, union, TypeVar and scalar annotations obey the documented laws.
    Model: model/Annot.v (make_array = _make_array_cached 527-596, getitem = __getitem__ 633-666). *)
-From JT Require Import model.Annot gen.DtypeTables proofs.DimLangFacts proofs.AnnotFacts proofs.DtypeFacts.
+From JT Require Import model.Annot gen.DtypeTables proofs.DimLangFacts proofs.AnnotFacts proofs.DtypeFacts proofs.AnnotAcceptFacts.
 Open Scope string_scope.
 
 (* `s2 s1` parses to the concatenation of the two axis lists (the multi-axis index of s1 shifted by the
@@ -82,3 +82,14 @@ Proof.
   apply Bool.eqb_prop in Ha, Hb, Hc, Hd. now subst.
 Qed.
 Print Assumptions C15_scalar_ladder_table.
+
+(* the nest law at the level of what is ACCEPTED: for every value, symbol table and context, a check against D2[D1[A, s1], s2]
+   gives the same verdict and leaves the same bindings as a check against (D1 n D2)[A, "s2 s1"] *)
+Theorem C15_nest_accepts_exactly_the_flat : forall D1 D2 A s1 s2 b1 b,
+  (A = TAny \/ exists id, A = TClass id) ->
+  make_array D1 A s1 = MBuilt b1 -> make_array D2 (TNested b1) s2 = MBuilt b ->
+  exists dt bflat, inter D2 D1 = Some dt /\ make_array dt A (s2 ++ " " ++ s1) = MBuilt bflat /\
+    (forall st cls v s, check_built st b cls v s = check_built st bflat cls v s) /\
+    (forall st x s, accepts_one st (MBuilt b) x s = accepts_one st (MBuilt bflat) x s).
+Proof. exact nest_accepts_same. Qed.
+Print Assumptions C15_nest_accepts_exactly_the_flat.
